@@ -67,6 +67,39 @@ def dispatch_case(draw, disabled=()):
     return p
 
 
+@st.composite
+def layout_dispatch_case(draw):
+    """G1 layout program (arbitrary branch targets inside the main region: shared reject blocks, departures of
+    several path blocks to one and the same block, cut-off loops that rejoin the kept code) + dispatch paths"""
+    from vf.gen_layout import layout_program
+
+    p = dict(draw(layout_program(structured=True, max_slots=12, max_subs=2, reuse_targets=True)))
+    p.setdefault("features", [])
+    p.setdefault("mode", None)
+    g = RCFG(p)
+    paths = main_paths(g)
+    longer = [x for x in paths if len(x) >= 3] or [x for x in paths if len(x) >= 2]
+    pick = lambda: draw(st.sampled_from(longer)) if longer and draw(st.integers(0, 4)) else draw(st.sampled_from(paths))
+    # paths on which two blocks leave the path towards one and the same block (a shared reject / fallback block)
+    first = {g.seq[b[0]].line: b for b in g.blocks}
+
+    def departures(pth):
+        out = []
+        for k, l in enumerate(pth[:-1]):
+            out += [x for x in g.succ_lines(g.seq[first[l][-1]].line) if x in first and x != pth[k + 1]]
+        return out
+
+    shared = [x for x in paths if len(set(departures(x))) < len(departures(x))]
+    if shared and draw(st.integers(0, 7)):
+        p["path"] = draw(st.sampled_from(shared))
+        p["features"] = list(p["features"]) + ["two_departures_to_one_block"]
+    else:
+        p["path"] = pick()
+    p["other"] = pick()
+    p["order"] = draw(st.sampled_from(["alone", "before", "after", "twice"]))
+    return p
+
+
 def in_cycle(g: RCFG, line: int) -> bool:
     first = {g.seq[b[0]].line: b for b in g.blocks}
     seen, stack = set(), [l for l in g.succ_lines(g.seq[first[line][-1]].line) if l in first]
@@ -227,7 +260,7 @@ def check(case, no_loop_paths=False):
                 raise Violation(v.clause, f"{v.detail}: {where}")
     shares = bool(set(fn.subroutines)) and order in ("before", "after")
     return {"nontrivial": len(path) >= 2 and shares, "key": case_hash([g.text, path, other, order]),
-            "features": [f"len={len(path)}", order] + (["path_through_loop"] if any(in_cycle(g, l) for l in path[:-1]) else []),
+            "features": [f"len={len(path)}", order] + (["path_through_loop"] if any(in_cycle(g, l) for l in path[:-1]) else []) + [f for f in case.get("features", []) if f == "two_departures_to_one_block"],
             "counters": {"accepted_executions": nacc, "executions_starting_with_path": nmatch}}
 
 
@@ -378,6 +411,8 @@ def components(tier, disabled):
     return {
         "dispatch": {"strategy": dispatch_case(disabled), "check": lambda c: check(c, nl), "examples": 900 if q else 50000,
                      "sample": lambda c, i: {"path": c["path"], "order": c["order"], "source": RCFG(c).text}},
+        "layout": {"strategy": layout_dispatch_case(), "check": lambda c: check(c, nl), "examples": 2000 if q else 100000,
+                   "sample": lambda c, i: {"path": c["path"], "order": c["order"], "source": RCFG(c).text}},
         "exact": {"strategy": exact_case(disabled), "check": check_exact, "examples": 700 if q else 40000,
                   "sample": lambda c, i: {"path": c["path"], "source": RCFG(c).text}},
         "config": {"strategy": config_case(disabled), "check": check_config, "examples": 500 if q else 20000,
